@@ -318,7 +318,7 @@ def oracle(parts, outcome, obs):
 
 
 CLAIM = {
-    "text": "Theorems (Coq, closed): each BDS 4,0 / 5,0 / 6,0 field decoder equals the Doc 9871 layout on its status, sign and magnitude bits for every 112-bit frame (two's complement, floors); is_bds_4_0/5_0/6_0 return a register only if all its status bits are set, its value fields non-zero, its reserved bits zero and the plausibility limits hold, and do return it whenever they hold; with no -R and a recorded capability below 4 a DF20/21 reply changes no Comm-B derived field; without -R a register that BDS 1,7 has not advertised changes none of its fields. Tied to the code with registers synthesised from physical values (full ranges, both signs, limits +/-1 LSB), single status bits cleared, reserved bits set, random MB fields, all short orders of DF11 / BDS 1,7 / data replies, +/-R +/-U, DF20 and DF21, with an independent Doc 9871 decoder as oracle.",
+    "text": "Theorems (Coq, closed): each BDS 4,0 / 5,0 / 6,0 field decoder equals the Doc 9871 layout on its status, sign and magnitude bits for every 112-bit frame (two's complement, floors); is_bds_4_0/5_0/6_0 return a register only if all its status bits are set, its value fields non-zero, its reserved bits zero and the plausibility limits hold, and do return it whenever they hold; with no -R and a recorded capability below 4 a DF20/21 reply changes no Comm-B derived field; without -R a register that BDS 1,7 has not advertised changes none of its fields. Tied to the code with registers synthesised from physical values (full ranges, both signs, limits +/-1 LSB), single status bits cleared, reserved bits set, random MB fields, all short orders of DF11 / BDS 1,7 / data replies, +/-R +/-U, DF20 and DF21, with an independent Doc 9871 decoder as oracle. The stages of the decoder are characterised exactly (Proofs/CommBStages.v): an identified BDS 2,0 / 3,0 reply changes only the callsign / the threat marker (a report without a threat bit clears it), BDS 1,0 changes nothing, a BDS 1,7 report replaces the recorded register flags (the latest report counts), a reply nothing recognises -- an empty MB field in particular -- leaves the row as it was, the weather parameters change only through a recognised 4,4 / 4,5 register; callsign, threat marker and capability report are carried through the whole pipeline for DF20/21 on an existing row with the gate open (C10_stage_*, C10_nothing_recognised, C10_empty_mb, C10_weather_only_from_44_45, C10_*_end_to_end).",
     "note": "The precedence/inference order (1,7 > 4,0 > 5,0 > 6,0) is covered by the correspondence and the oracle; the theorems are per stage.",
     "technique": "Coq proof: RangeSpec rewriting of every field decoder against a Doc 9871 specification, validity/completeness of the register tests, gating via footprints; differential runs with synthesised registers + independent oracle",
 }
